@@ -3,7 +3,7 @@ use crate::util::*;
 use embedded_graphics::{
     pixelcolor::Gray8,
     prelude::*,
-    primitives::{Line, PrimitiveStyle, PrimitiveStyleBuilder},
+    primitives::{Line, PrimitiveStyle},
 };
 use std::collections::BTreeSet;
 
@@ -84,8 +84,111 @@ fn p_line(l: Line) -> String {
     format!("OK {}", pts.len())
 }
 
+/// every thick-line clause of C17 on the real `Styled<Line>::pixels()`, exact integer arithmetic
+fn p_thick(l: Line, w: u32) -> String {
+    let pts: Vec<Point> =
+        l.into_styled(PrimitiveStyle::with_stroke(Gray8::new(1), w)).pixels().map(|p| p.0).take(pixel_budget(&l, w)).collect();
+    let thin: Vec<Point> = l.points().collect();
+    if w == 0 {
+        return if pts.is_empty() { "OK 0".into() } else { format!("FAIL width-0 draws {}", pts.len()) };
+    }
+    if w == 1 && pts != thin {
+        return "FAIL width-1 differs from points()".into();
+    }
+    let dx = l.end.x as i128 - l.start.x as i128;
+    let dy = l.end.y as i128 - l.start.y as i128;
+    let dmaj = dx.abs().max(dy.abs());
+    let len2 = dx * dx + dy * dy;
+    let wi = w as i128;
+    // termination bound: at most 3w+2 parallels of at most dmaj+1 pixels
+    if pts.len() as i128 > (3 * wi + 2) * (dmaj + 1) {
+        return format!("FAIL too-many-pixels {}", pts.len());
+    }
+    let set: BTreeSet<(i32, i32)> = pts.iter().map(|p| (p.x, p.y)).collect();
+    if set.len() != pts.len() {
+        let mut seen = BTreeSet::new();
+        for p in &pts {
+            if !seen.insert((p.x, p.y)) {
+                return format!("FAIL duplicate {}:{}", p.x, p.y);
+            }
+        }
+    }
+    for p in &thin {
+        if !set.contains(&(p.x, p.y)) {
+            return format!("FAIL thin-missing {}:{}", p.x, p.y);
+        }
+    }
+    for p in &pts {
+        let ox = p.x as i128 - l.start.x as i128;
+        let oy = p.y as i128 - l.start.y as i128;
+        if len2 == 0 {
+            // zero length: the ideal "line" is the point itself
+            if 4 * (ox * ox + oy * oy) > (wi + 5) * (wi + 5) {
+                return format!("FAIL distance(zero-length) {}:{}", p.x, p.y);
+            }
+            continue;
+        }
+        // distance to the ideal line = |cross| / len <= w/2 + 5/2
+        let cross = ox * dy - oy * dx;
+        if 4 * cross * cross > (wi + 5) * (wi + 5) * len2 {
+            return format!("FAIL distance {}:{} cross={}", p.x, p.y, cross);
+        }
+        // projection at most one pixel beyond either end: -len <= dot <= len^2 + len
+        let dot = ox * dx + oy * dy;
+        if (dot < 0 && dot * dot > len2) || (dot > len2 && (dot - len2) * (dot - len2) > len2) {
+            return format!("FAIL beyond-ends {}:{} dot={}", p.x, p.y, dot);
+        }
+    }
+    // width at the middle: among the pixels whose projection onto the line is within one pixel of the midpoint
+    // (|2*dot - len^2| <= 2*len), the extent across the line, (max cross - min cross)/len + 1 pixel, is >= w - 1
+    if len2 > 0 {
+        let mut cmin: Option<i128> = None;
+        let mut cmax: Option<i128> = None;
+        for p in &pts {
+            let ox = p.x as i128 - l.start.x as i128;
+            let oy = p.y as i128 - l.start.y as i128;
+            let dot = ox * dx + oy * dy;
+            let t = 2 * dot - len2;
+            if t * t <= 4 * len2 {
+                let cross = ox * dy - oy * dx;
+                cmin = Some(cmin.map_or(cross, |m| m.min(cross)));
+                cmax = Some(cmax.map_or(cross, |m| m.max(cross)));
+            }
+        }
+        match (cmin, cmax) {
+            (Some(a), Some(b)) => {
+                if wi >= 2 && (b - a) * (b - a) < (wi - 2) * (wi - 2) * len2 {
+                    return format!("FAIL middle-width extent={} w={}", b - a, w);
+                }
+                // the stroke straddles the ideal line there (up to the half pixel of the centre line)
+                if 2 * a > dmaj || 2 * b < -dmaj {
+                    return format!("FAIL middle-one-sided {}..{}", a, b);
+                }
+            }
+            _ => return "FAIL middle-empty".into(),
+        }
+    } else {
+        let ys: Vec<i128> = pts.iter().map(|p| p.y as i128).collect();
+        let ext = ys.iter().max().unwrap() - ys.iter().min().unwrap() + 1;
+        if ext < wi - 1 {
+            return format!("FAIL middle-width(zero-length) extent={} w={}", ext, w);
+        }
+    }
+    format!("OK {}", pts.len())
+}
+
+/// C17_thick_terminates: at most (3w+2)*(dmaj+1) pixels; one more is let through so that a runaway iterator
+/// shows up as a mismatch instead of a hang
+pub fn pixel_budget(l: &Line, w: u32) -> usize {
+    let dx = (l.end.x as i64 - l.start.x as i64).abs();
+    let dy = (l.end.y as i64 - l.start.y as i64).abs();
+    ((3 * w as u64 + 2) * (dx.max(dy) as u64 + 1) + 1) as usize
+}
+
 fn thick(a: &[&str]) -> impl Iterator<Item = Point> {
-    ln(a).into_styled(PrimitiveStyle::with_stroke(Gray8::new(1), u(a[4]))).pixels().map(|p| p.0)
+    let l = ln(a);
+    let w = u(a[4]);
+    l.into_styled(PrimitiveStyle::with_stroke(Gray8::new(1), w)).pixels().map(|p| p.0).take(pixel_budget(&l, w))
 }
 
 pub fn run(suite: &str, a: &[&str]) -> Option<String> {
@@ -93,8 +196,9 @@ pub fn run(suite: &str, a: &[&str]) -> Option<String> {
         "line_points" => spts(ln(a).points()),
         "line_digest" | "line_walk" => digest(ln(a).points()),
         "thick_pixels" => spts(thick(a)),
-        "thick_digest" => digest(thick(a)),
+        "thick_digest" | "thick_walk" => digest(thick(a)),
         "line_sbb" => src(ln(a).into_styled(PrimitiveStyle::with_stroke(Gray8::new(1), u(a[4]))).bounding_box()),
+        "p_thick" => p_thick(ln(a), u(a[4])),
         "p_line" => p_line(ln(a)),
         _ => return None,
     })
